@@ -321,6 +321,10 @@ def validate(seed, tier):
         tk = rng.standard_normal((L, L)); vi = rng.standard_normal((L, L, L, L))
         runner.concrete_check('molecular', dict(kind=kind, optimize=opt, tkin=tk.tolist(), vint=vi.tolist()))
         n += 1
+        # dtype mechanics are erased by the symbolic encoding: integer-valued (dtype int) coefficient tensors through the real code
+        tki = rng.integers(-3, 4, size=(L, L)); vii = rng.integers(-3, 4, size=(L, L, L, L))
+        runner.concrete_check('molecular', dict(kind=kind, optimize=opt, tkin=tki.tolist(), vint=vii.tolist(), dtype='int'))
+        n += 1
     return dict(concrete_inputs_checked=n)
 
 
